@@ -187,8 +187,22 @@ func c03Inits(lengths []int, kinds []int) []int {
 	return ids
 }
 
+// c03Data returns n bytes with 8 bytes of spare capacity behind them holding the guard value 0xEE
+// (checked by c03GuardIntact after the call: the setter must not write behind its argument).
+func c03GuardIntact(b []byte) bool {
+	for _, x := range b[len(b):cap(b)] {
+		if x != 0xEE {
+			return false
+		}
+	}
+	return true
+}
+
 func c03Data(tag byte, n int) []byte {
-	b := make([]byte, n)
+	b := make([]byte, n, n+8)
+	for i := n; i < n+8; i++ {
+		b[:n+8][i] = 0xEE
+	}
 	for i := range b {
 		b[i] = tag + byte((i*7+n)%0x1F)
 	}
@@ -358,9 +372,15 @@ func c03Apply(s *c03State, opi int, res *engine.Result) bool {
 		case c03SetPriv:
 			data := setVar(&m2.Private, 0xA0)
 			callErr = af.SetTransportPrivateData(data)
+			if !c03GuardIntact(data) {
+				res.Failf(op.name+"|argument-spare-capacity-overwritten", "the setter wrote behind its []byte argument")
+			}
 		case c03SetExt:
 			data := setVar(&m2.Ext, 0xE0)
 			callErr = af.SetAdaptationFieldExtension(data)
+			if !c03GuardIntact(data) {
+				res.Failf(op.name+"|argument-spare-capacity-overwritten", "the setter wrote behind its []byte argument")
+			}
 		case c03Copy:
 			src := c03Source(op.n % 100)
 			srcPkt := c03SourcePacket(op.n)
